@@ -244,6 +244,24 @@ class C19(core.Check):
                 if base[f'p{i}'] != single:
                     res.fail(**{'class': 'dna_to_hp/not-positional', 'input': {'decls': repr(ds)[:300], 'dna': ''.join(genes), 'index': i},
                                 'observed': [base[f'p{i}'], single]})
+        # positional, exhaustively over every ADJACENT PAIR of letters (80 x 80) in the middle of a DNA: letters that mean
+        # something to string handling (backslash, quotes, brackets, digits) must be plain genes, also when doubled
+        ds = [dict(grid[i % len(grid)], name=f'p{i}') for i in range(4)]
+        singles = [{ch: jh.dna_to_hp([ds[i]], ch)[f'p{i}'] for ch in charset} for i in range(4)]
+        for a in charset:
+            for b in charset:
+                dna = charset[7] + a + b + charset[70]
+                res.seen(('pair', a, b), True)
+                res.count('adjacent-pairs')
+                try:
+                    got = jh.dna_to_hp(ds, dna)
+                except Exception as e:  # noqa
+                    res.fail(**{'class': 'dna_to_hp/raises-on-alphabet', 'input': {'decls': repr(ds)[:300], 'dna': dna}, 'observed': repr(e)})
+                    continue
+                want = {f'p{i}': singles[i][dna[i]] for i in range(4)}
+                if got != want:
+                    res.fail(**{'class': 'dna_to_hp/not-positional', 'input': {'decls': repr(ds)[:300], 'dna': dna, 'pair': [a, b]},
+                                'observed': got, 'expected': want})
         # precedence on real runs, stated directly (not via the model)
         for case in self.precedence_cases(self.budget(16, 160, boost)):
             ex, routes = case
